@@ -143,7 +143,7 @@ def rule_sib(ctx):
             res.violate("KdTreeIndex::%s : kdtree-error-dropped" % q, "the Result of kdtree::%s is not propagated with `?`" % dep, fn_loc(fns[0]))
     D = ctx.facts("dep-kdtree")
     if D is None:
-        res.violate("kdtree : dependency-facts", "cannot extract facts of the locked kdtree dependency")
+        res.undecided("kdtree : dependency-facts", "cannot extract facts of the locked kdtree dependency")
     else:
         for dep in ("nearest", "within"):
             fns = [f for f in D.all_fns() if f["d"]["name"] == dep and (f["d"].get("self_adt") or "").endswith("KdTree")]
@@ -244,7 +244,7 @@ def rule_edge(ctx):
     for kind in ("LinearSearch", "BallTree", "KdTree"):
         res.instance("%s admits a point iff rdist %s rdist(range)" % (kind, rel.get(kind)))
         if rel.get(kind) is None:
-            res.violate("%s : admission-test-not-found" % kind, "cannot find the comparison that admits a point into the range-query result (fail closed)", locs.get(kind))
+            res.undecided("%s : admission-test-not-found" % kind, "cannot find the comparison that admits a point into the range-query result (fail closed)", locs.get(kind))
     vals = set(v for v in rel.values() if v)
     if len(rel) == 3 and all(rel.values()):
         if len(vals) == 1:
@@ -294,6 +294,7 @@ class DegEval:
         self.r = Render(self.c)
         self.env = dict(env)
         self.impl_rdeg = impl_rdeg
+        self.inits = {}
         self.self_local = None
         for p_ in fn["params"]:
             if p_.get("k") == "Bind" and p_["name"] == "self":
@@ -326,6 +327,8 @@ class DegEval:
                 raise DegError("unclassified", "exponent `%s` is not understood" % self.r.e(n), n.get("ln"))
         if k_ == "Field" and n["name"] == "0" and peel_refs(n["e"]).get("local") == self.self_local:
             return (Fraction(1), 1)
+        if k_ == "Path" and n.get("local") in self.inits:
+            return self.exponent(self.inits[n["local"]])
         if k_ == "Call":
             d = self.c.dfn(strip(n["f"]).get("def")) if strip(n["f"]).get("k") == "Path" else None
             nm = d["name"] if d else None
@@ -389,6 +392,7 @@ class DegEval:
                     d = self.deg(s2["init"])
                     for b in pat_bindings(s2["pat"]):
                         self.env[b["local"]] = d
+                        self.inits[b["local"]] = s2["init"]
                 elif s2.get("k") in ("Ret",):
                     raise DegError("unclassified", "early return", s2.get("ln"))
             if n.get("e") is None:
@@ -435,6 +439,10 @@ class DegEval:
                 return DEG0
             if nm in ("from", "cast", "Some", "Ok", "new") and n["args"]:
                 return self.deg(n["args"][0])
+            if d is not None and n["args"] and (nm in STATS_DEG or nm in SAME_DEG or nm in ("sqrt", "cbrt", "powi", "powf", "and", "zip", "max", "min", "add", "sub", "mul", "dot", "fold", "map", "mapv", "distance", "rdistance")):
+                # universal function call syntax of a method: first argument is the receiver
+                as_method = {"k": "MethodCall", "name": nm, "recv": n["args"][0], "args": n["args"][1:], "def": f.get("def"), "ln": n.get("ln"), "t": n.get("t")}
+                return self.deg(as_method)
             raise DegError("unclassified", "call of `%s` is not understood by the degree analysis" % (nm or self.r.e(f)[:40]), n.get("ln"))
         if k_ == "MethodCall":
             nm = n["name"]
@@ -505,7 +513,7 @@ def rule_degree(ctx):
         try:
             got = DegEval(f, rdeg, env).deg(f["body"])
         except DegError as e:
-            res.violate("%s : %s" % (key, e.kind), e.msg, fn_loc(f, e.ln))
+            res.violate("%s : %s" % (key, e.kind), e.msg, fn_loc(f, e.ln), undecided=(e.kind == "unclassified"))
             return None
         if want is not None and got != want and got != ANY:
             res.violate("%s : wrong-degree" % key,
